@@ -151,7 +151,10 @@ impl Database {
                     continue;
                 }
                 let table_id = TableRefId::new(schema.id(), table.id());
-                let table = storage.get_table(table_id)?;
+                // the table may be dropped by another session while we walk the catalog
+                let Ok(table) = storage.get_table(table_id) else {
+                    continue;
+                };
                 let txn = table.read().await?;
                 let values = txn.aggreagate_block_stat(&[(
                     BlockStatisticsType::RowCount,
